@@ -111,6 +111,7 @@ class Runner:
         for d in (self.cdir, self.ddir):
             os.makedirs(d, exist_ok=True)
             for name, data in fs.files.items():
+                os.makedirs(os.path.dirname(os.path.join(d, name)), exist_ok=True)
                 with open(os.path.join(d, name), "wb") as fh:
                     fh.write(data)
 
@@ -168,7 +169,7 @@ def f15_class(fs: FileSet, full: bytes, part: bytes) -> bool:
 
 # ------------------------------------------------------------------ enumeration
 
-def enumerate_faults(ctx, runner: Runner, fs: FileSet, thorough: bool, phase: int):
+def enumerate_faults(ctx, runner: Runner, fs: FileSet, thorough: bool, phase: int, offsets=None):
     full = fs.files[fs.target]
     runner.install(fs)
     sane = runner.both_roles(fs)
@@ -183,7 +184,7 @@ def enumerate_faults(ctx, runner: Runner, fs: FileSet, thorough: bool, phase: in
     stats = ctx.extra.setdefault("fault_statistics", {})
     st = stats.setdefault(fs.label, {"size": len(full), "cuts": 0, "lost": 0, "same": 0, "tolerance": 0,
                                      "exit0": 0, "exit_nonzero": 0, "removals": 0, "shortened": 0})
-    faults = [("cut", off, full[:off]) for off in cf.cut_offsets(full, thorough, 7, phase)]
+    faults = [("cut", off, full[:off]) for off in (offsets if offsets is not None else cf.cut_offsets(full, thorough, 7, phase))]
     if fs.kind == "csv":
         faults += [("remove-column", lab, d) for lab, d in cf.csv_column_removals(full)]
     elif fs.target.endswith(".pvtu"):
@@ -616,6 +617,15 @@ def run(ctx):
         for i, fs in enumerate(sets):
             enumerate_faults(ctx, runner, fs, thorough, phase=ctx.rng.randrange(7))
         search_csv_fill(ctx, runner)
+        # phase 6 (package G): directed file sets (flavour x encoding matrix, sizes, piece positions / sub-directories,
+        # CSV shapes); quick: a sparse set of cut offsets per file, thorough: every offset
+        from fcv import c18_sets_p6g as pg
+        p6g = pg.matrix_sets(ctx.rng, thorough) + pg.size_sets(ctx.rng, thorough) + pg.parallel_sets(ctx.rng) + pg.csv_sets(ctx.rng)
+        for label, kind, files, main_, target in p6g:
+            fs = FileSet(label, kind, files, main_, target)
+            full = files[target]
+            offs = None if (thorough and len(full) < 6000) else pg.sparse_offsets(ctx.rng, full, ctx.scale(14, 1500))
+            enumerate_faults(ctx, runner, fs, thorough, phase=0, offsets=offs)
         ctx.extra["cli_runs"] = runner.n_runs
         ctx.exhaustive = thorough
     finally:
